@@ -44,6 +44,27 @@ __CPROVER_assigns()
 __CPROVER_ensures(__CPROVER_return_value == (sector_count_type)track.val * geom_->sectors + (sector_count_type)sector.val)
 __CPROVER_ensures(__CPROVER_return_value < (sector_count_type)geom_->cylinders * geom_->sectors);
 
+/* ---- the limits dump-sector checks its arguments against: the track (argument 2) against cylinders - 1, the sector (argument 3)
+   against sectors-per-track - 1; either refusal ends the command ---- */
+static struct { unsigned calls; int arg0, arg1; long lim0, lim1; struct opt_long r0, r1; } GA;
+static struct opt_long get_arg_v(int argno, long upper_limit)
+{
+  struct opt_long r; r.has = nondet_bool(); r.val = nondet_long();
+  if (GA.calls == 0) { GA.arg0 = argno; GA.lim0 = upper_limit; GA.r0 = r; } else { GA.arg1 = argno; GA.lim1 = upper_limit; GA.r1 = r; }
+  if (GA.calls < 100) GA.calls++;
+  return r;
+}
+#include "dump_sector_limits.inc"
+static bool dump_sector_limits(const struct Geometry *geom_, struct opt_long *track_out, struct opt_long *sector_out)
+__CPROVER_requires(__CPROVER_is_fresh(geom_, sizeof(*geom_)) && __CPROVER_is_fresh(track_out, sizeof(*track_out)) && __CPROVER_is_fresh(sector_out, sizeof(*sector_out)))
+__CPROVER_requires(geom_->cylinders >= 1 && geom_->cylinders <= 80 && geom_->sectors >= 1 && geom_->sectors <= 18 && GA.calls == 0)
+__CPROVER_assigns(*track_out, *sector_out, GA)
+__CPROVER_ensures(GA.calls >= 1 && GA.arg0 == 2 && GA.lim0 == (long)geom_->cylinders - 1)
+__CPROVER_ensures(GA.calls == (GA.r0.has ? 2 : 1))
+__CPROVER_ensures(GA.calls == 2 ==> (GA.arg1 == 3 && GA.lim1 == (long)geom_->sectors - 1))
+__CPROVER_ensures(__CPROVER_return_value == (GA.r0.has && GA.calls == 2 && GA.r1.has))
+__CPROVER_ensures(__CPROVER_return_value ==> (track_out->has && track_out->val == GA.r0.val && sector_out->has && sector_out->val == GA.r1.val));
+void h_dump_limits(void) { const struct Geometry *g; struct opt_long *t, *s; GA.calls = 0; dump_sector_limits(g, t, s); }
 void h_get_arg(void)
 {
   struct argstr *a;
